@@ -25,8 +25,8 @@ RULE = ("lists of JSON objects in hint position: random key/value trees and fiel
         "processed; distinct = distinct hint lists.")
 ASSUMPTIONS = ["top-level list elements are JSON objects (dicts); nested positions hold arbitrary JSON values",
                "bool ports and out-of-range integer ports are don't-care for the dial clause"]
-FLOORS = {"quick": {"path1_cases": 600, "path2_cases": 100, "path3_cases": 100, "rx_hints_in_LONELY": 15, "rx_hints_in_CONNECTED": 30, "rx_hints_in_FLUSHING": 8, "malformed_elements": 1500, "roundtrips": 50, "dials": 400, "tor_refusals": 100, "path4_cases": 30},
-          "thorough": {"path1_cases": 40000, "path2_cases": 3000, "path3_cases": 3000, "rx_hints_in_LONELY": 500, "rx_hints_in_CONNECTED": 1000, "rx_hints_in_FLUSHING": 250, "malformed_elements": 90000, "roundtrips": 2500, "dials": 20000, "tor_refusals": 6000, "path4_cases": 1000}}
+FLOORS = {"quick": {"valid_hints_behind_an_unsupported_twin": 120, "path1_cases": 600, "path2_cases": 100, "path3_cases": 100, "rx_hints_in_LONELY": 15, "rx_hints_in_CONNECTED": 30, "rx_hints_in_FLUSHING": 8, "malformed_elements": 1500, "roundtrips": 50, "dials": 400, "tor_refusals": 100, "path4_cases": 30},
+          "thorough": {"valid_hints_behind_an_unsupported_twin": 3000, "path1_cases": 40000, "path2_cases": 3000, "path3_cases": 3000, "rx_hints_in_LONELY": 500, "rx_hints_in_CONNECTED": 1000, "rx_hints_in_FLUSHING": 250, "malformed_elements": 90000, "roundtrips": 2500, "dials": 20000, "tor_refusals": 6000, "path4_cases": 1000}}
 JUNK = [None, True, False, 0, -1, 1.5, 2 ** 40, "", "str", [], [1, 2], {}, {"a": 1}, "direct-tcp-v1", ["direct-tcp-v1"], {"type": "direct-tcp-v1"}]
 HOSTS = ["10.1.1.1", "10.1.1.2", "host.example", "fe80::1", "", " ", "a b", "ünï.example", "x" * 300, "127.0.0.1"]
 
